@@ -85,7 +85,8 @@ class TdlChannelProfile:
 
         aux = (np.sum(self._tap_powers_linear * self._tap_delays**2) /
                np.sum(self._tap_powers_linear))
-        self._rms_delay_spread = math.sqrt(aux - self._mean_excess_delay**2)
+        self._rms_delay_spread = math.sqrt(
+            max(0.0, aux - self._mean_excess_delay**2))
 
         # Sampling interval when the channel profile is discretized. You
         # can call the
